@@ -101,6 +101,99 @@ CHECKS["C23"] = (
     "post-filter paths are not decided.",
 )
 
+CHECKS["C08"] = (
+    "def-use analysis of the scatter indices (every index reduced modulo its own axis), term normal form of the "
+    "bilinear weights (partition of unity), axis-pair agreement between repetitions and grid quantities",
+    "Decides necessary conditions of translation/repetition covariance: periodic wrap on the right axis in both "
+    "arms, weights summing identically to 1, tiling/extent/slice-thickness repetition along matching axes.",
+    "The covariance equalities themselves (numerical) and finite projection are not decided.",
+)
+CHECKS["C09"] = (
+    "path-sensitive guard analysis of _validate_slice_thickness; single-digitize / label-table rule for "
+    "SliceIndexedAtoms; half-open membership comparison for SlicedAtoms",
+    "Decides the slicing clauses: thicknesses are checked to sum to the cell height on every accepting path, each "
+    "atom receives exactly one slice label from one digitize over all atoms, slice membership is half-open.",
+    "Additivity of potentials and independence from slice thickness are numerical; the 1e-12 boundary nudge is "
+    "deliberately not armed (frozen fragment).",
+)
+CHECKS["C10"] = (
+    "def-use slices: store-index dependence on the block index in block loops (scatter rule), dependence of yielded "
+    "slices / loop bounds on (first_slice, last_slice) for every generate_slices implementation, window-shape rule",
+    "Decides that eager builds scatter every ensemble member to its own index, that every slice generator honours its "
+    "window at both ends, and that lazy and eager builds allocate the window's shape.",
+    "May-dependence only: an off-by-one inside a window is not decided. One recorded finding (GPAW magnetics).",
+)
+CHECKS["C11"] = (
+    "memo-key completeness: for every memo pattern (dict try/except KeyError, single-slot key compare, keyless) the "
+    "access paths that flow into the cached value must flow into the key unless immutable for the cache's lifetime",
+    "Decides that no cached potential ingredient can survive a change of gpts/sampling/device: all memoised values are "
+    "keyed by everything they depend on.",
+    "Ambient configuration read inside cached values and mutation through external aliases are not decided.",
+)
+CHECKS["C17"] = (
+    "abstract interpretation of Grid.__init__ and the extent/gpts/sampling setters over every configuration "
+    "(defined fields x lock flags x None) and every acyclic path; term normal forms of the _adjust_* helpers",
+    "Decides consistency after any single assignment from any consistent state (hence by induction after any history): "
+    "non-raising paths end consistent with the right endpoint formula, raising paths leave the fields untouched, "
+    "locked gpts/sampling assignments raise before any store; reciprocal sampling is 1/(gpts*sampling).",
+    "Float rounding inside ceil is not decided; re-fitting a locked sampling is upstream semantics (reported as info).",
+)
+CHECKS["C18"] = (
+    "CFG dominance of the sum guard over every producing arm of validate_chunks; term identities for "
+    "equal_sized_chunks and chunk_ranges; typestate over _auto_chunks' growth loop",
+    "Decides that every validated chunking passed the sum==shape guard, equal-sized chunks differ by at most one and "
+    "sum to n as a term identity, chunk ranges are contiguous (start_{i+1} = stop_i), and every growth step of "
+    "_auto_chunks is re-tested against the element limit before the loop can exit.",
+    "That _auto_chunks finds a within-limit chunking whenever one exists is not decided.",
+)
+CHECKS["C20"] = (
+    "term normal forms of scan geometry (linspace arguments, sampling vs endpoint convention, per-block start/end in "
+    "_partition_args, ScanAxis offset/sampling, shift-kernel phase and position scaling)",
+    "Decides that the positions a scan yields, the sampling it reports, the blocks it is cut into and the axis "
+    "metadata are the same arithmetic progression, and that the probe shift kernel is exp(-2 pi i k.r/sampling).",
+    "Numerical equality of shifted probes is not decided.",
+)
+CHECKS["C24"] = (
+    "rational-function-with-radicals normal form of the energy relations against the property's formulas; sign "
+    "domain; CFG guard on energy > 0",
+    "Decides that wavelength, relativistic mass, and interaction parameter are exactly the stated closed forms in "
+    "h, c, m_e, e for every energy, that they are positive on E > 0, that non-positive energies raise, and that "
+    "angular sampling is reciprocal sampling * wavelength * 1e3 at every definition site.",
+    "Monotonic decrease follows mathematically from the verified closed form (not machine-checked); ase unit "
+    "definitions are trusted structurally.",
+)
+CHECKS["C30"] = (
+    "writer/reader table agreement: type tags, metadata keys written vs popped, store-key prefixes, kwargs packing "
+    "pairs, axis-class registry and array-class registry resolvability",
+    "Decides that everything the zarr writer emits has a matching reader entry: tags, keys, axis classes and array "
+    "classes. Five array classes that cannot be resolved by the reader are recorded as known findings.",
+    "Array values/dtype through zarr/dask are not decided.",
+)
+CHECKS["C32"] = (
+    "ownership/effect analysis: borrowed-vs-fresh abstract values over reaching definitions, per-function "
+    "returns/mutates summaries to a fixed point over the package call graph, class-hierarchy resolution of methods; "
+    "receiver-write scan with alias tracking for measurement methods",
+    "Decides that no in-place ASE operation, positions/cell store or mutating callee can reach an Atoms object that "
+    "may be the caller's (parameter, stored without copy, or exposed by another object), and that measurement "
+    "methods never write the receiver's array or metadata (directly, via alias, dict mutators or out=).",
+    "Assumes ase copy/__getitem__ semantics; third-party callees are assumed not to mutate their arguments.",
+)
+CHECKS["C35"] = (
+    "axis-class registry resolvability for both dict readers, dataclass-field rules, term form of "
+    "LinearAxis.coordinates, structural rules for OrdinalAxis slicing/concatenation",
+    "Decides that every axis class in the package can be rebuilt by the dict readers, that only declared dataclass "
+    "fields are serialised, that ordinal slicing/concatenation acts on `values` only and in order, and that linear "
+    "coordinates are offset + i*sampling.",
+    "Value equality after the round trip (safe_equality) is not decided.",
+)
+CHECKS["C36"] = (
+    "structural/term rules for distributions: stored-argument identity, negation, same-slice division, "
+    "linspace/gaussian closed forms and normalisation arms",
+    "Decides that uniform/gaussian distributions are built from the advertised closed forms, negation touches values "
+    "only, division slices values and weights identically, and multidimensional accessors read matching components.",
+    "numpy numerics and the outer-product ordering are not decided.",
+)
+
 NOT_APPLICABLE = {
     "C25": "consistency of each parametrization's real- and reciprocal-space forms is an analytic Fourier-"
            "transform identity between tabulated-coefficient kernels plus monotonicity over table data; no "
